@@ -147,21 +147,14 @@ pub fn check_b_chip(tv: &TV, aux: &ColMatrix<Quad>, a: &[Quad], msgs: &[Msg], ou
             }
             p
         };
-        let mut ok = false;
-        let mut e_req = Quad::ONE;
-        let mut e_resp = Quad::ONE;
-        for pick_req in 0..2 {
-            for pick_resp in 0..2 {
-                e_req = prod(&reqs, pick_req);
-                e_resp = prod(&resps, pick_resp);
-                if real * e_req == e_resp {
-                    ok = true;
-                }
-            }
-        }
-        if ok {
+        let e_reqs = [prod(&reqs, 0), prod(&reqs, 1)];
+        let e_resps = [prod(&resps, 0), prod(&resps, 1)];
+        if e_reqs.iter().any(|q| e_resps.iter().any(|p| real * *q == *p)) {
             continue;
         }
+        // for the classification below: does the factor look like "requests left out" / "responses left out"?
+        let requests_missing = e_resps.iter().any(|p| real == *p);
+        let responses_missing = e_reqs.iter().any(|q| real * *q == Quad::ONE);
         if kernel_row && !ms.iter().any(|m| m.kind.starts_with("kernel-proc-call@chiplet")) {
             // a kernel ROM row that is not an access contributes an unexpected factor; whatever
             // request happens to share the row index is not the cause
@@ -172,9 +165,9 @@ pub fn check_b_chip(tv: &TV, aux: &ColMatrix<Quad>, a: &[Quad], msgs: &[Msg], ou
         let resp_kinds: Vec<String> = resps.iter().map(|m| m.kind.clone()).collect();
         let sig = if resp_kinds.iter().any(|k| k == "kernel-proc-call@chiplet") {
             "b_chip/response-wrong@kernel-proc-call@chiplet".to_string()
-        } else if !reqs.is_empty() && real == e_resp {
+        } else if !reqs.is_empty() && requests_missing {
             format!("b_chip/request-missing@{}", req_kinds.join("+"))
-        } else if !resps.is_empty() && real * e_req == Quad::ONE {
+        } else if !resps.is_empty() && responses_missing {
             format!("b_chip/response-missing@{}", resp_kinds.join("+"))
         } else if resps.is_empty() {
             format!("b_chip/request-wrong@{}", req_kinds.join("+"))
